@@ -239,6 +239,7 @@ def generate_source_code(docstring, parsed):
 
         visited_names = set()
         more_imports = []
+        inherited_rules = []
 
         for rule in rules:
             if hasattr(rule, 'name'):
@@ -254,6 +255,8 @@ def generate_source_code(docstring, parsed):
                     out += Code(f'_ctx.{impl_name} = _super_ctx.{impl_name}')
                     visited_names.add(stmt.name)
                     more_imports.append(stmt.name)
+                    if isinstance(stmt, parser.RuleDef) and not stmt.params:
+                        inherited_rules.append(stmt.name)
             ancestor = ancestor.extends
 
         if more_imports:
@@ -261,6 +264,15 @@ def generate_source_code(docstring, parsed):
             out.append_global(Code(
                 f'from {parsed.extends.name} import (\n    {lines}\n)'
             ))
+
+        # An inherited rule used as an entry point ("B.R.parse") has to run in
+        # the context of this grammar, like "B.parse" does, so that the rules it
+        # refers to are the ones this grammar overrides.
+        for name in inherited_rules:
+            impl_name = ex.implementation_name(name)
+            with out.DEF(f'_parse_{name}', ['text', 'pos=0', 'fullparse=True']):
+                out.RETURN(Code(f'_run(_ctx, text, pos, _ctx.{impl_name}, fullparse)'))
+            out += Code(f'{name} = ParsingRule({name!r}, _parse_{name}, {name}.definition)')
 
     return out
 
